@@ -24,9 +24,9 @@ The model the observations are compared with is the list model **with the UTF-8 
 equal to the plain one on valid UTF-8 by `fasta_utf8_model_eq`).  Besides, for every reader configuration
 `<cap>:<mode>:<schedule>` of the case the driver runs the *stateful* mirror (`parseFastaVia`-style: `BufReader` of
 that capacity over the cyclic read schedule, `read_until`, `read_line` + UTF-8 check, `Reader::read`, `Records`) and
-compares (a) its items with the observed `R:` of that configuration → `drift-buf`, (b) the number of `read` calls it
-made on the source with the observed `N:` → `drift-reads`, (c) `readLines` / the read counter with std's own
-`read_until` loop (`L:`) → `drift-lines`.  These tie the std mirror to std (sampled); they are not property clauses.
+compares (a) its items with the list model (equal by theorem, else `bad-op`) and hence, through the `drift` comparison,
+with the observed `R:` of every configuration, (b) the number of `read` calls it made on the source with the observed
+`N:` → `drift-reads`, (c) `readLines` / the read counter with std's own `read_until` loop (`L:`) → `drift-lines`.  These tie the std mirror to std (sampled); they are not property clauses.
 A stateful run that differs from the list model would contradict `fasta_read_schedule_independent` → `bad-op`. -/
 namespace RbV.Drv.C11
 open RbV.Codec RbV.Fastx
@@ -169,13 +169,11 @@ def linesObs (g : Cfg) (file : Bytes) : String :=
 
 /-- tags from the mirror runs: observed item lists (one per configuration), `N:` and `L:` tokens.
 `none` = the stateful mirror contradicts the list model (cannot happen: theorem). -/
-def viaTags (fq : Bool) (cfgs : List Cfg) (file : Bytes) (rs : List String) (ntok ltok : Option String) :
+def viaTags (fq : Bool) (cfgs : List Cfg) (file : Bytes) (_rs : List String) (ntok ltok : Option String) :
     Option String :=
   let mU := modelU fq file
   let runs := cfgs.map fun g => runVia fq g file
   if runs.any (fun r => r.1 ≠ mU) then none else
-  let obs : List (Option (List GItem)) := rs.map fun r => (stripPrefix "R:" r).bind parseItems
-  let dbuf := (List.zip runs obs).any fun (r, o) => o ≠ some r.1
   let ns : Option (List Nat) := (ntok.bind (stripPrefix "N:")).bind parseNatList
   let dreads : Bool := match ns with
     | some ns => ns != runs.map (·.2)
@@ -183,7 +181,7 @@ def viaTags (fq : Bool) (cfgs : List Cfg) (file : Bytes) (rs : List String) (nto
   let dlines : Bool := match cfgs, ltok.bind (stripPrefix "L:") with
     | g :: _, some l => l != linesObs g file
     | _, _ => true
-  some ((if dbuf then " drift-buf" else "") ++ (if dreads then " drift-reads" else "")
+  some ((if dreads then " drift-reads" else "")
     ++ (if dlines then " drift-lines" else "") ++ " via")
 
 
@@ -355,7 +353,7 @@ def verdict (toks : List String) (out : String) : String :=
         | some fobs =>
           if fobs ≠ fbytes then "reject writer-bytes expected-" ++ toHex fbytes else
           if rest.length ≠ offs.length then "reject observation-count" else
-          let rec goCut (drift : Bool) (part : Bool) (dbuf : Bool) (dreads : Bool) : List Nat → List String → String
+          let rec goCut (drift : Bool) (part : Bool) (dreads : Bool) : List Nat → List String → String
             | c :: cs, t :: ts =>
               match t.splitOn "+" with
               | [ks, body, rd] =>
@@ -374,13 +372,13 @@ def verdict (toks : List String) (out : String) : String :=
                     if via.1 ≠ mU then "bad-op via-model-not-schedule-independent" else
                     let d := mU ≠ items
                     goCut (drift || d) (part || tail.any (fun | .r _ _ => true | _ => false))
-                      (dbuf || via.1 ≠ items) (dreads || via.2 ≠ reads) cs ts
+                      (dreads || via.2 ≠ reads) cs ts
                 | _, _, _ => "bad-op observation"
               | _ => "bad-op observation"
             | _, _ => "ok" ++ tagsOf fq recs false ++ " cut" ++ (if drift then (if isNonAscii fbytes then " drift-nonascii" else " drift") else "")
                   ++ (if part then " partial-record" else "")
-                  ++ (if dbuf then " drift-buf" else "") ++ (if dreads then " drift-reads" else "") ++ " via"
-          goCut false false false false offs rest
+                  ++ (if dreads then " drift-reads" else "") ++ " via"
+          goCut false false false offs rest
       | _, _, _ => "bad-op parse"
     | _, _ => "bad-op parse"
   | ["raw", fmt, hx, cfgss] =>
